@@ -629,6 +629,34 @@ type Occ struct {
 	Ctx *FCtx
 }
 
+// Upto is the path as far as (and including) its k-th segment: values resolve to
+// what they were at that point (the latest execution of a loop-carried phi or
+// of a repeated load before it).
+func (p CPath) Upto(k int) CPath {
+	if k+1 > len(p.Segs) {
+		k = len(p.Segs) - 1
+	}
+	return CPath{Segs: p.Segs[:k+1], fl: p.fl, prefix: true}
+}
+
+// OccsPos lists the instruction occurrences with the index of their segment.
+func (p CPath) OccsPos() []OccPos {
+	var out []OccPos
+	for k, s := range p.Segs {
+		for _, in := range s.Instrs() {
+			out = append(out, OccPos{In: in, Ctx: s.Ctx, Seg: k})
+		}
+	}
+	return out
+}
+
+// OccPos is an occurrence with its position on the path.
+type OccPos struct {
+	In  ssa.Instruction
+	Ctx *FCtx
+	Seg int
+}
+
 // Occs lists the instruction occurrences of the path in order.
 func (p CPath) Occs() []Occ {
 	var out []Occ
@@ -728,8 +756,10 @@ func (p CPath) stepIn(cur *FCtx, v ssa.Value) (ssa.Value, *FCtx, bool) {
 		}
 		return v, cur, false
 	case *ssa.Phi:
-		for k, s := range p.Segs {
-			if s.B == x.Block() && s.Lo == 0 && k > 0 && (cur == nil || s.Ctx == cur) {
+		// the latest execution of the phi on the path (use Upto to ask about an earlier point)
+		for k := len(p.Segs) - 1; k > 0; k-- {
+			s := p.Segs[k]
+			if s.B == x.Block() && s.Lo == 0 && (cur == nil || s.Ctx == cur) {
 				prev := p.Segs[k-1]
 				for i, pr := range s.B.Preds {
 					if pr == prev.B && prev.Ctx == s.Ctx {
@@ -742,27 +772,23 @@ func (p CPath) stepIn(cur *FCtx, v ssa.Value) (ssa.Value, *FCtx, bool) {
 	}
 	if al := privateCell(v); al != nil {
 		// last store to the cell on this path before the load (same context)
-		var last ssa.Value
-		done := false
+		// the value at the latest execution of the load on the path
+		var last, atLoad ssa.Value
 		for _, s := range p.Segs {
 			if cur != nil && s.Ctx != cur {
 				continue
 			}
 			for _, in := range s.Instrs() {
 				if in == v.(ssa.Instruction) {
-					done = true
-					break
+					atLoad = last
 				}
 				if st, ok := in.(*ssa.Store); ok && st.Addr == ssa.Value(al) {
 					last = st.Val
 				}
 			}
-			if done {
-				break
-			}
 		}
-		if last != nil {
-			return last, cur, true
+		if atLoad != nil {
+			return atLoad, cur, true
 		}
 	}
 	return v, cur, false
